@@ -97,6 +97,27 @@ def run(res, tier, seed, replay):
         if mm.get("admitted") != str(a) or mm.get("ctr") != str(k) or ("none" if k == N else f"{N}:{k}") != mm.get("verdict") :
             res.corr_diffs.append(dict(case=case, impl=o, model=M.get(cid)))
         distinct.add((N, (k > N) - (k < N), nt, m))
+    # (b') a `when` predicate that takes a while for non-matching arguments: p non-matching calls are still INSIDE the predicate (on other threads) while the
+    # N matching calls are made: a call that is going to be rejected has no effect on the count at any time, so all N are admitted
+    pk = [(f"pk{i}", N, p) for i, (N, p) in enumerate([(1, 1), (1, 3), (2, 2), (2, 5), (3, 1), (3, 4), (5, 5), (5, 9)] * (1 if tier == "quick" else 6))]
+    pp = subprocess.run([exe, "count"], input="".join(f"{c[0]} parked {c[1]} {c[2]}\n" for c in pk), capture_output=True, text=True, timeout=900)
+    po = {}
+    for l in pp.stdout.split("\n"):
+        t = l.split()
+        if len(t) >= 2: po.setdefault(t[0], {})[t[1]] = t[2:]
+    for cid, N, p in pk:
+        o = po.get(cid, {})
+        case = dict(id=cid, N=N, non_matching_calls_inside_the_predicate=p, replay=f"real count <<< '{cid} parked {N} {p}'")
+        if str(o.get("CHILD", ["?"])[0]).startswith("skipped"): continue
+        if "PARKED" not in o or o.get("CHILD", ["?"])[0] != "exit:0":
+            res.violation("run with non-matching calls parked inside the `when` predicate did not complete (crash, abort or deadlock)", case, o); continue
+        kv = dict(x.split("=", 1) for x in o["PARKED"])
+        if int(kv["parked"]) < p: res.extra["parked_cases_not_all_parked"] = res.extra.get("parked_cases_not_all_parked", 0) + 1
+        if kv["admitted"] != str(N) or kv["overcalled"] != "0" or kv["other"] != "0" or kv["rejected"] != str(p) or kv["exit"] != "normal":
+            res.violation(f"with {kv['parked']} non-matching calls still inside the `when` predicate, the {N} matching calls of a times: {N} fake gave admitted={kv['admitted']} overcalled={kv['overcalled']} "
+                          f"(rejected afterwards: {kv['rejected']} of {p}, scope exit {kv['exit']}); a call that is rejected never counts, so all {N} must be admitted and the scope left normally", case, o)
+        distinct.add((N, "parked", p, 0))
+    res.cov["evaluations"] += len(pk); res.cov["traces_validated_against_impl"] += len(pk)
     # (c) churn: 16 threads each running complete lifetimes through ONE fake!(.., times: N) line; every scope must see the verdict of its own calls
     churn = [(f"u{i}", site, N, nt, (1500 if tier == "quick" else 12000) // nt * 4, kk) for i, (site, N, nt, kk) in enumerate([(1, 1, 16, 1), (2, 2, 8, 2), (2, 2, 16, 3), (3, 3, 4, 2), (7, 7, 16, 7)])]
     cp = subprocess.run([exe, "count"], input="".join(f"{c[0]} churn {c[1]} {c[3]} {c[4]} {c[5]}\n" for c in churn), capture_output=True, text=True, timeout=1200)
